@@ -348,13 +348,18 @@ class NegateExpression(UnaryExpression):
 
     def __str__(self) -> str:
         inner: Union[Optional[MathExpression], str] = self.get_child()
-        binary_types = (
+        group_types = (
             AddExpression,
             SubtractExpression,
+            FactorialExpression,
         )
-        if isinstance(inner, binary_types):
+        # Two consecutive minus signs do not parse, and "-4!" reads as (-4)!
+        if isinstance(inner, group_types) or f"{inner}".startswith("-"):
             inner = f"({inner})"
-        return self.with_color("-{}".format(inner))
+        out = self.with_color("-{}".format(inner))
+        if _is_power_base(self):
+            return f"({out})"
+        return out
 
     def to_math_ml_fragment(self) -> str:
         """Convert this single node into MathML."""
@@ -599,7 +604,8 @@ class MultiplyExpression(BinaryExpression):
                 right.left, VariableExpression
             )
             if one or two:
-                return self.with_color(f"{left}{right}")
+                out = self.with_color(f"{left}{right}")
+                return f"({out})" if _is_power_base(self) else out
         return super().__str__()
 
     def to_math_ml_fragment(self) -> str:
@@ -664,7 +670,15 @@ class PowerExpression(BinaryExpression):
         return np.power(one, two)
 
     def __str__(self) -> str:
-        return "{}{}{}".format(self.left, self.with_color(self.name), self.right)
+        out = "{}{}{}".format(self.left, self.with_color(self.name), self.right)
+        return f"({out})" if _is_power_base(self) else out
+
+
+def _is_power_base(node: MathExpression) -> bool:
+    """Whether the node is the base (left child) of a power. A base has to read back
+    as a single factor, so products printed without an operator, powers and negations
+    need their own parentheses there: `(2x)^2`, `(x^2)^3`, `(-x)^2`."""
+    return isinstance(node.parent, PowerExpression) and node.parent.left is node
 
 
 class ConstantExpression(MathExpression):
